@@ -23,12 +23,9 @@ ID = "C15"
 LEVEL = "model_checking"
 MIN_OUTCOMES = 3
 MANIFEST = {
-    "text": "For every pattern of the grammar set and every covering state whose version text is PEP 440-valid, the text the real code "
-    "renders for {pep440_version} is parsed by packaging and must equal the version (release, pre/post/dev kind and number), match the "
-    "derived search pattern in full, agree with to_pep440/`PEP440` line, and be in the README normal form; on README/core patterns the "
-    "same is observed in files written by `update` and in `test` output.",
-    "note": "separators other than . - _ and none are outside G; versions that are not PEP 440 are out of scope (counted)",
-    "technique": "explicit-state exploration of (pattern, state) space on the real code against packaging.version as reference",
+    'text': 'For every pattern of the grammar set and every covering state whose version text is PEP 440-valid, the text the real code renders for {pep440_version} is parsed by packaging and must equal the version (release, pre/post/dev kind and number), match the derived search pattern in full, agree with to_pep440/`PEP440` line, and be in the README normal form; on README/core patterns the same is observed in files written by `update` and in `test` output, and in `show` when the current version comes from a VCS tag that is ahead of the config.',
+    'note': 'separators other than . - _ and none are outside G; versions that are not PEP 440 are out of scope (counted)',
+    'technique': 'explicit-state exploration of (pattern, state) space on the real code against packaging.version as reference',
 }
 RULE = (
     "state = (pattern, part values); evaluation = derive + render + match on the real code; in scope iff the {version} text is "
